@@ -24,6 +24,10 @@ CLAIMS = {
   text="CRC-32 burst detection (<=32 bits) for every polynomial with bit 31 set, table form = bitwise form, refusal of bursts / bit flips / 4-byte changes / every truncation / bad magic, version, section count, refusal of every appended tail, and all-or-nothing loading are Coq theorems over CRC parameters and wire constants regenerated from nvm_format.c; the extracted loader is compared with the real nvm_deserialize (ASan) on every single-bit flip and truncation of ~40 files, bursts in both bit numberings, steered tails.",
   note="Fault model: header intact (the header is outside the checksum); MSB-first bursts straddling five bytes are swept, not proved. One open finding: lenient entry loops inside a section (needs a crafted, well-checksummed file).",
   technique="Coq proof + generated parameters + extracted-model correspondence", design="DESIGN.md 5/C12"),
+ 'C14': dict(
+  text="Inv (interning table sound; for every live object ref_count >= in-degree from operand stack incl. locals, globals, frame closures and live containers; every reference targets a live object) holds initially and is preserved by every modelled VM opcode from ANY state satisfying it (arbitrary bytecode) and hence by runs; no use-after-free, no double free (ids never reused); the recursive release is a DFS worklist proved with the pending-multiset invariant; exactness (rc = in-degree) and no-leak for leak-free runs. The extracted model replays the real VM's logged instruction stream and must agree on live set, tags, ref_counts and in-degrees at EVERY instruction boundary (~1e5 boundaries per quick run); an independent C-side audit recomputes in-degrees after every instruction (1/4 of the runs under ASan).",
+  note="Churn bound is partial (vm_compute on regenerated real instruction streams, not forall k). Hashmap opcodes, element-wise array arithmetic and non-string FFI results are audited on the real VM only. The instruction stream (control flow, indices) is an input of the model run. C recursion depth of vm_release belongs to C13.",
+  technique="Coq proof (micro-op ownership model, release worklist) + extracted-model replay of real traces + implementation-side audit probe", design="DESIGN.md 5/C14, App. A.2"),
  'C17': dict(
   text="Under every schedule a session's final state and reply equal its run alone (interleaving theorem over footprints), the lazily initialised CRC table is race free under sequential consistency, every session-reachable writable global (nm/relocation inventory regenerated per run) is classified, and the client's view of the reply equals the standalone observation; live daemon with up to 16 (quick) / 64 (thorough) concurrent clients, TSan/ASan builds.",
   note="Sequential consistency only; footprint classes asserted by reading and tested; scheduler not modelled; VM run is an oracle shared by both sides; FFI sessions excluded.",
